@@ -18,6 +18,8 @@ def run(ck: Check):
     from explore import oracle_session
     from universe import session_universe
     session_universe(ck, oracle_session, quick=ck.tier == "quick")
+    from envmatrix import run_matrix
+    run_matrix(ck, ("C01",))
     from scale import big_final_is_last_accepted
     big_final_is_last_accepted(ck)
     from boundaries import final_file_at_part_counts
